@@ -124,7 +124,7 @@ def fresh_zone(F, cls, hint="tz", k=1, key=None):
     T = tuple(F.int(f"{hint}_T{i}") for i in range(k))
     o = tuple(F.int(f"{hint}_o{i}") for i in range(k + 1))
     if key is None:
-        key = __import__("pyvc.world", fromlist=["SymName"]).SymName(F.int(f"{hint}_name"))
+        key = __import__("pyvc.world", fromlist=["SymName"]).SymName(F.int(f"{hint}_name"), model=(T, o))
     zone = Obj(cls, key=key, T=T, o=o)
     cs = [sym.And(sym.gt(x, -D), sym.lt(x, D)) for x in o]
     # isolation: measured on tzdata by the zone sweep (closest pair 344,400 s; largest change 86,400 s)
@@ -917,6 +917,59 @@ def install_datetime(w):
             yield from ex.call_value(s1, m, [utc], {}, line)
 
     w.reg(meth(DT, "astimezone"), dt_astimezone, "datetime.astimezone")
+
+    # ---------------- datetime.timezone (fixed offset of the standard library)
+    TZC = _dt.timezone
+
+    def tzc_utcoffset(ex, st, args, kw, line):
+        yield st, mk_td(TD, sym.mul(args[0].off, M))
+
+    def tzc_tzname(ex, st, args, kw, line):
+        off = args[0].off
+        if not is_sym(off):
+            yield st, "UTC" if off == 0 else ex.world.sym_format(off, None)
+            return
+        s0 = st.fork(sym.eq(off, 0), f"L{line}utc")
+        if ex.feasible(s0):
+            yield s0, "UTC"
+        st.assume(sym.ne(off, 0))
+        if ex.feasible(st):
+            yield st, ex.world.sym_format(off, None)
+
+    def obj_eq(ex, st, args, kw, line):
+        a, b = args
+        yield st, (True if ex.world.identical(a, b) is True else NotImplemented)
+
+    def obj_ne(ex, st, args, kw, line):
+        a, b = args
+        yield st, (False if ex.world.identical(a, b) is True else NotImplemented)
+
+    w.reg(object.__dict__["__eq__"], obj_eq, "object.__eq__")
+    w.reg(object.__dict__["__ne__"], obj_ne, "object.__ne__")
+
+    def tzc_eq(ex, st, args, kw, line):
+        a, b = args
+        if isinstance(b, Obj) and b.cls is TZC:
+            yield st, sym.eq(a.off, b.off)
+        else:
+            yield st, NotImplemented
+
+    w.reg(TZC.__dict__["__eq__"], tzc_eq, "datetime.timezone.__eq__")
+    w.reg(TZC.__dict__["utcoffset"], tzc_utcoffset, "datetime.timezone.utcoffset")
+    w.reg(TZC.__dict__["tzname"], tzc_tzname, "datetime.timezone.tzname")
+
+    def dt_utcfromtimestamp(ex, st, args, kw, line):
+        cls, ts = args[0], args[1]
+        if not sym.is_intlike(ts):
+            raise Unsupported(f"utcfromtimestamp of a float at line {line}")
+        wv = sym.add(spec.wall_us_f(1970, 1, 1, 0, 0, 0, 0), sym.mul(ts, M))
+        if not raise_if(ex, st, sym.Not(in_dt_range(wv)), ValueError, line, "utcfromts"):
+            return
+        r, c = fields_from_wall(ex.fresh, cls, wv, None, 0, "utcfromts")
+        st.assume(c)
+        yield st, r
+
+    w.reg(DT.__dict__["utcfromtimestamp"], dt_utcfromtimestamp, "datetime.utcfromtimestamp")
 
     # ---------------- zoneinfo (the (T, o) model)
     ZI = zoneinfo.ZoneInfo
